@@ -129,3 +129,38 @@ Theorem c08_rename_order_dependent :
   sty (rename ex_rs_bad [2; 1; 3]%positive ex_t) = 2%positive.
 Proof. exact rename_order_dependent. Qed.
 Print Assumptions c08_rename_order_dependent.
+
+(** The glue around the sequencer (event dict, root, rename on the dict, recursion over child id lists, row emission)
+    and its composition with streaming (C12): Otel/Pipeline.v.  These statements mention [nano_to_pv] (Flocq), hence
+    the standard-library axioms in their Print Assumptions. *)
+From V Require Import Store.Rel Store.Stream Otel.Pipeline Otel.PipelineProofs.
+
+Theorem c08_build_tree_spec : forall job t,
+  build_tree job = Some t ->
+  Permutation (Span.ids t) (map (fun e => nid (fst e)) job)
+  /\ forall s, In s (Span.nodes t) -> exists n cs, In (n, cs) job
+       /\ sid s = nid n /\ sty s = nty n /\ sst s = nst n /\ sen s = nen n
+       /\ spl s = njob n /\ map sid (skids s) = cs.
+Proof. exact build_tree_spec. Qed.
+Print Assumptions c08_build_tree_spec.
+
+Theorem c08_tree_jobb_spec : forall job, tree_jobb job = true <-> TreeJob job.
+Proof. exact tree_jobb_spec. Qed.
+Print Assumptions c08_tree_jobb_spec.
+
+Theorem c08_sequence_job_to_pv : forall async m rs job t,
+  build_tree job = Some t -> parents_present job = true ->
+  exists rows, sequence_job async m rs job = JOk rows
+               /\ map PipelineCheck.row3_to_row rows = SeqCheck.to_pv async m rs (map eid job) t.
+Proof. exact sequence_job_to_pv. Qed.
+Print Assumptions c08_sequence_job_to_pv.
+
+Theorem c08_job_skipped_iff : forall async m rs job,
+  sequence_job async m rs job = JSkipped <-> exists e p, In e job /\ epar e = Some p /\ ~ In p (map eid job).
+Proof. exact job_skipped_iff. Qed.
+Print Assumptions c08_job_skipped_iff.
+
+Theorem c08_job_error_iff : forall async m rs job,
+  sequence_job async m rs job = JError <-> ParentsClosed job /\ ~ Sequencable (dict_of job).
+Proof. exact job_error_iff. Qed.
+Print Assumptions c08_job_error_iff.
